@@ -513,7 +513,6 @@ class CacheWorld(object):
   def udp(self, dps):
     if not hasattr(self, 'udp_proto'):
       self.udp_proto = self.w.protocols.MetricDatagramReceiver()
-      self.udp_proto.peerName = 'udp'
     data = ''.join('%s %r %r\n' % (m, v, ts) for m, ts, v in dps).encode('utf-8')
     try:
       self.udp_proto.datagramReceived(data, ('10.2.0.1', 5000))
